@@ -88,6 +88,11 @@ def gen_os(rng, maxops):
         elif r < 0.45:
             m = rng.choice([0, 1, 5, 16, 17, 30])
             drv.append('OX %d' % m); orc += [1, m]
+        elif r < 0.5:
+            # OS_TOP_ADD_STRING: drop the last byte of the top object if there is one, then append the string with its end marker
+            m = rng.choice([0, 0, 1, 3, 8, 20])
+            b = [x if x else 1 for x in rbytes(rng, m)]
+            drv.append(('OG %d %s' % (m, ' '.join(map(str, b)))).strip()); orc += [2, 1] + [0, m + 1] + b + [0]
         elif r < 0.55:
             m = rng.choice([0, 1, 2, 5, 100])
             drv.append('OS %d' % m); orc += [2, m]
@@ -102,7 +107,7 @@ def gen_os(rng, maxops):
         else:
             drv.append('OK'); orc += [7]
     drv += ['OT', 'OK']; orc += [6, 7]
-    nops = len(drv) - 1
+    nops = len(drv) - 1 + sum(1 for d in drv if d.startswith('OG'))      # an add-string is two operations of the model
     return ' '.join(drv), 'OS %d %d %s' % (length, nops, ' '.join(map(str, orc))), {'len': length, 'ops': nops}
 
 
@@ -122,6 +127,11 @@ def gen_vlo(rng, maxops):
             orc += [0, m] + b
         elif r < 0.5:
             m = rng.choice([0, 1, 5, 9, 30]); drv.append('VX %d' % m); orc += [1, m]
+        elif r < 0.57:
+            # VLO_ADD_STRING: in the model "drop the last byte if there is one, then append the string with its end marker"
+            m = rng.choice([0, 0, 1, 3, 8, 20])
+            b = [x if x else 1 for x in rbytes(rng, m)]
+            drv.append(('VG %d %s' % (m, ' '.join(map(str, b)))).strip()); orc += [2, 1] + [0, m + 1] + b + [0]
         elif r < 0.65:
             m = rng.choice([0, 1, 2, 5, 100]); drv.append('VS %d' % m); orc += [2, m]
         elif r < 0.72:
@@ -131,7 +141,7 @@ def gen_vlo(rng, maxops):
         else:
             drv.append('VD'); orc += [5]
     drv.append('VD'); orc += [5]
-    nops = len(drv) - 1
+    nops = len(drv) - 1 + sum(1 for d in drv if d.startswith('VG'))      # an add-string is two operations of the model
     return ' '.join(drv), 'VLO %d %d %s' % (length, nops, ' '.join(map(str, orc))), {'len': length, 'ops': nops}
 
 
